@@ -23,7 +23,7 @@ structure Entry (K : Type) where
 abbrev Res (K : Type) := List (Option (Entry K))
 
 section
-variable {K : Type} [Add K] [Mul K] [Div K] [OfNat K 0] [NatCast K] [DecidableEq K]
+variable {K : Type} [Add K] [Sub K] [Mul K] [Div K] [OfNat K 0] [NatCast K] [DecidableEq K]
 
 def Entry.isZero (e : Entry K) : Bool := e.re = 0 ∧ e.im = 0
 def Entry.abs2 (e : Entry K) : K := e.re * e.re + e.im * e.im
@@ -50,19 +50,28 @@ def clMeanIm (r : Res K) : K := guardedDiv (sumIm r) (lsize r)
 /-- mean over samples -/
 def average (xs : List K) : K := sumK xs / (xs.length : K)
 
+/-- variance over samples with `ddof` delta degrees of freedom: classic StatCalculator.var is the unbiased one (ddof = 1;
+    as two-pass formula — that Welford's recursion computes it is C26's subject), `jnp.std` the population one (ddof = 0) -/
+def variance (ddof : Nat) (xs : List K) : K :=
+  sumK (xs.map (fun x => (x - average xs) * (x - average xs))) / ((xs.length - ddof : Nat) : K)
+
 structure ClReport (K : Type) where
   redchisq : K
   meanRe : K
   meanIm : K
   ndof : Nat
   nigndof : Nat
+  redchisqVar : Option K      -- std² of the reduced χ² over samples; none with fewer than 2 samples (RuntimeError -> None)
+  meanReVar : Option K
 
 def clReport (samples : List (Res K)) : ClReport K :=
   { redchisq := average (samples.map clRedchisq)
     meanRe := average (samples.map clMeanRe)
     meanIm := average (samples.map clMeanIm)
     ndof := match samples.getLast? with | some r => lsize r | none => 0
-    nigndof := match samples.getLast? with | some r => nNan r + nZero r | none => 0 }
+    nigndof := match samples.getLast? with | some r => nNan r + nZero r | none => 0
+    redchisqVar := if samples.length < 2 then none else some (variance 1 (samples.map clRedchisq))
+    meanReVar := if samples.length < 2 then none else some (variance 1 (samples.map clMeanRe)) }
 
 /-! JAX: arrays without NaN -/
 abbrev ResRe (K : Type) := List (Entry K)
@@ -78,12 +87,16 @@ structure ReReport (K : Type) where
   meanRe : K
   meanIm : K
   ndof : Nat
+  rchisqVar : K               -- jnp.std(...)²
+  meanReVar : K
 
 def reReport (cplx : Bool) (samples : List (ResRe K)) : ReReport K :=
   { rchisq := average (samples.map (reRchisq cplx))
     meanRe := average (samples.map reMeanRe)
     meanIm := average (samples.map reMeanIm)
-    ndof := match samples.head? with | some r => reNdof cplx r | none => 0 }
+    ndof := match samples.head? with | some r => reNdof cplx r | none => 0
+    rchisqVar := variance 0 (samples.map (reRchisq cplx))
+    meanReVar := variance 0 (samples.map reMeanRe) }
 
 end
 end NiftyVerif.Minisanity
